@@ -494,6 +494,78 @@ theorem try_push_all_wf (maxOff : Nat) (validate : Bool) :
 
 example : tryPushAll 100 true OffBuf.empty [[0x61], [], [0xC3, 0xA9]] = .ok ⟨[0, 1, 1, 3], [0x61, 0xC3, 0xA9]⟩ := by rfl
 
+
+/-- **the char-boundary rule behind `try_push` + `check_valid_utf8`**: if a concatenation is
+well-formed UTF-8 and the second part does not start with a continuation byte, both parts
+are well-formed UTF-8. -/
+theorem utf8_split_at_char_boundary (a b : List Nat) (h : validUtf8 (a ++ b) = true)
+    (hb : ∀ x ∈ b.head?, isCont x = false) : validUtf8 a = true ∧ validUtf8 b = true :=
+  validUtf8_split a.length a b rfl h hb
+
+theorem try_push_values (maxOff : Nat) (ob ob' : OffBuf) (data : List Nat)
+    (h : tryPush maxOff ob data true = .ok ob') :
+    ob'.values = ob.values ++ data ∧ ∀ x ∈ data.head?, isCont x = false := by
+  cases data with
+  | nil =>
+    simp only [tryPush] at h
+    split at h
+    · simp at h
+    · simp only [Except.ok.injEq] at h
+      subst h
+      exact ⟨rfl, by simp⟩
+  | cons d ds =>
+    simp only [tryPush] at h
+    split at h
+    · simp at h
+    · rename_i hns
+      split at h
+      · simp at h
+      · simp only [Except.ok.injEq] at h
+        subst h
+        refine ⟨rfl, ?_⟩
+        intro x hx
+        simp only [List.head?_cons, Option.mem_def, Option.some.injEq] at hx
+        subst hx
+        simp only [notCharStart, Bool.not_eq_true, decide_eq_false_iff_not] at hns
+        simp only [isCont]
+        by_cases c1 : 128 ≤ d
+        · by_cases c2 : d < 192
+          · exfalso; apply hns
+            simp only [show ¬ d < 128 by omega, if_false]
+            omega
+          · simp [c2]
+        · simp [c1]
+
+/-- **`OffsetBuffer`: per-value UTF-8 validity from one whole-buffer check.**  If every value
+was pushed with `try_push(.., validate_utf8 = true)` and `check_valid_utf8(0)` accepts the
+concatenated values buffer, then every individual value (the bytes between two consecutive
+offsets) is well-formed UTF-8 — the premise `StringArray` validity needs. -/
+theorem try_push_all_values_utf8 (maxOff : Nat) :
+    ∀ (ds : List (List Nat)) (ob ob' : OffBuf), tryPushAll maxOff true ob ds = .ok ob' →
+      validUtf8 ob'.values = true → validUtf8 ob.values = true ∧ ∀ d ∈ ds, validUtf8 d = true := by
+  intro ds
+  induction ds with
+  | nil => intro ob ob' h hv; simp [tryPushAll] at h; subst h; exact ⟨hv, by simp⟩
+  | cons d ds ih =>
+    intro ob ob' h hv
+    simp only [tryPushAll] at h
+    cases hp : tryPush maxOff ob d true with
+    | error e => simp [hp] at h
+    | ok ob1 =>
+      simp only [hp] at h
+      have h1 := ih ob1 ob' h hv
+      have h2 := try_push_values _ _ _ _ hp
+      rw [h2.1] at h1
+      have h3 := utf8_split_at_char_boundary _ _ h1.1 h2.2
+      refine ⟨h3.1, ?_⟩
+      intro d' hd'
+      simp only [List.mem_cons] at hd'
+      rcases hd' with rfl | hd'
+      · exact h3.2
+      · exact h1.2 d' hd'
+
+example : validUtf8 [0x61, 0xC3, 0xA9] = true ∧ validUtf8 [0xA9] = false ∧ validUtf8 [0xED, 0xA0, 0x80] = false := by decide
+
 /-! ### (T) constants the statements above depend on, as extracted from /repo -/
 
 /-- the model is written against these regenerated values; a change in the source changes
